@@ -1053,13 +1053,16 @@ def rule_column_unit(chk: Check, only_consistent: bool = False):
     code base counts characters everywhere — a known finding — but mixing the two breaks adjacency and spans.)"""
     from ..pyflow import Index, own_nodes
     ix = Index()
-    producers = ["Parser.span", "TokenInfo.loc_start", "TokenInfo.loc_end"]
+    # the token-side producers: whichever of the location helpers exist (one may have been folded into another)
+    producers = ["Parser.span"] + [q for q in ("TokenInfo.loc_start", "TokenInfo.loc_end", "TokenInfo.loc") if q in ix.funcs]
+    if len(producers) < 2:
+        raise AnalysisError("no TokenInfo location helper (loc / loc_start / loc_end) found")
     units = {}
     for q in producers:
         f = ix.get(q)
         conv = any(isinstance(n, ast.Call) and isinstance(n.func, ast.Attribute) and n.func.attr in ("encode",) for n in ast.walk(f.node)) or \
             any(isinstance(n, ast.Call) and isinstance(n.func, ast.Attribute) and norm_stmt(n.func.value) == "self"
-                and n.func.attr not in ("span", "loc_start", "loc_end") and not n.func.attr.startswith("_tokenizer") for n in ast.walk(f.node)
+                and n.func.attr not in ("span", "loc_start", "loc_end", "loc") and not n.func.attr.startswith("_tokenizer") for n in ast.walk(f.node)
                 if q.startswith("TokenInfo."))
         units[q] = "bytes/converted" if conv else "characters"
     chk.count("A5-column-unit")
